@@ -112,6 +112,13 @@ pub fn next_tag() -> P {
 }
 
 /// reads a payload that may legitimately have been recycled: only the access itself is checked
+/// the address of a held payload is computed from the object, not read: probing it first turns "the memory
+/// behind an object that is still alive was unmapped" into a reported failure instead of a dead worker
+fn still_mapped(addr: usize, sig: &'static str, what: &str) -> Result<(), Failure> {
+    ensure!(vcore::util::mapped(addr, core::mem::size_of::<P>()), sig, "the payload of the {what} at {addr:#x} is not mapped any more although the object is still alive");
+    Ok(())
+}
+
 fn touch(p: &P) {
     let v = unsafe { std::ptr::read_volatile(p as *const P) };
     std::hint::black_box(v);
@@ -270,6 +277,15 @@ impl<S: Service> Graph<S> for PubSub<S> {
             (None, None) => {}
         }
         if let Some(s) = &self.sample {
+            // the address of the payload is computed from the sample, not read: probe before touching, so
+            // that "the memory of a sample that is still alive was unmapped" is a reported failure and
+            // not the death of the worker
+            let addr = s.payload() as *const P as usize;
+            ensure!(
+                vcore::util::mapped(addr, core::mem::size_of::<P>()),
+                "pubsub.probe.sample_unmapped",
+                "the payload of the held sample at {addr:#x} is not mapped any more although the sample is still alive"
+            );
             if self.sample_is_reference {
                 ensure!(**s == self.sample_tag, "pubsub.probe.sample_payload", "held sample reads {:?}, expected {:?}", **s, self.sample_tag);
             } else {
@@ -550,6 +566,7 @@ impl<S: Service> Graph<S> for ReqRes<S> {
         }
         // the established stream
         if let Some(pr) = &self.pending_response {
+            still_mapped(&**pr as *const P as usize, "reqres.probe.pending_unmapped", "pending response (request payload)")?;
             ensure!(**pr == self.request_tag, "reqres.probe.pending_payload", "pending response shows request {:?}, sent {:?}", **pr, self.request_tag);
             ensure!(
                 pr.is_connected() == self.active_request.is_some(),
@@ -560,6 +577,7 @@ impl<S: Service> Graph<S> for ReqRes<S> {
             );
         }
         if let Some(ar) = &self.active_request {
+            still_mapped(&**ar as *const P as usize, "reqres.probe.active_unmapped", "active request")?;
             ensure!(**ar == self.request_tag, "reqres.probe.active_payload", "active request reads {:?}, sent {:?}", **ar, self.request_tag);
             ensure!(
                 ar.is_connected() == self.pending_response.is_some(),
@@ -611,6 +629,7 @@ impl<S: Service> Graph<S> for ReqRes<S> {
             ensure!(more.is_none(), "reqres.probe.server_alone", "a request arrived that nobody sent");
         }
         if let Some(r) = &self.response {
+            still_mapped(&**r as *const P as usize, "reqres.probe.response_unmapped", "held response")?;
             ensure!(**r == self.response_tag, "reqres.probe.response_payload", "held response reads {:?}, expected {:?}", **r, self.response_tag);
         }
         if let Some(rm) = &mut self.request_mut {
